@@ -16,6 +16,9 @@ func (n *Notifier) VerifDump(idOf func(Target) int) string {
 	defer n.lock.RUnlock()
 	var prod []string
 	for name, set := range n.productionMap {
+		if len(set) == 0 {
+			continue // an empty set is not a registration (whether it is deleted or kept is representation)
+		}
 		ids := make([]int, 0, len(set))
 		pr := make(map[int]int, len(set))
 		for t, p := range set {
@@ -34,6 +37,9 @@ func (n *Notifier) VerifDump(idOf func(Target) int) string {
 	var tids []int
 	nm := make(map[int][]string)
 	for t, names := range n.nameMap {
+		if len(names) == 0 {
+			continue
+		}
 		id := idOf(t)
 		tids = append(tids, id)
 		var l []string
